@@ -52,6 +52,7 @@ def tasks(tier, seed):
     out += [('dense',) + t for t in corpus.dense_tasks(tier)]
     out += [('tagarrays', t) for t in 'tbBsuIilLfdDSTFVx']
     out += [('L-reading', part) for part in range(4)]
+    out += [('tagfill', t) for t in 'bBsuIilLfdTt']
     from mc import values
     out += values.codepoint_tasks()
     return out
@@ -424,6 +425,8 @@ def run(task, ctx):
                             through_frame=(n % 8 == 0))
     elif kind == 'codepoints':
         run_codepoints(ctx, task[1], task[2])
+    elif kind == 'tagfill':
+        run_tagfill(ctx, task[1])
     elif kind == 'L-reading':
         run_l_reading(ctx, task[1])
     elif kind == 'dense':
@@ -509,6 +512,45 @@ def run_codepoints(ctx, lo, hi):
                                           80)), case, repr(s), 'other')
                 else:
                     ctx.outcome('ok')
+
+
+_WIDTH = {'t': 1, 'b': 1, 'B': 1, 's': 2, 'u': 2, 'I': 4, 'i': 4, 'l': 8,
+          'L': 8, 'f': 4, 'd': 8, 'T': 8}
+
+
+def run_tagfill(ctx, first_tag):
+    """Mixed arrays in which the payload bytes of one element equal the TAG
+    bytes of its neighbours (a decoder that counts or searches tag bytes, or
+    assumes a stride, instead of walking the elements is fooled exactly when
+    counts and lengths happen to line up): every array of 2 and of 3
+    fixed-width elements over {12 tags} x {payload filled with one of 11
+    bytes}, first element of the given tag."""
+    fills = [ord(c) for c in 'bBsuIilLfd'] + [0x01]
+    elems = []
+    for tag, w in _WIDTH.items():
+        for f in fills:
+            if tag == 'L' and f & 0x80:
+                continue
+            if tag == 'T':
+                payload = b'\x00\x00\x00\x00' + bytes([f]) * 4
+            elif tag == 't':
+                payload = bytes([f & 1])
+            else:
+                payload = bytes([f]) * w
+            elems.append(tag.encode() + payload)
+    firsts = [e for e in elems if e[:1] == first_tag.encode()]
+    wide = first_tag in 'IilLfd'
+    for a in firsts:
+        for b in elems:
+            body = a + b
+            check_value(ctx, b'A' + struct.pack('>I', len(body)) + body,
+                        'tag-fill array', through_frame=False)
+            if not wide or a[1] != 0x01 and a[1:2] != b[:1]:
+                continue
+            for c in elems:
+                body = a + b + c
+                check_value(ctx, b'A' + struct.pack('>I', len(body)) + body,
+                            'tag-fill array', through_frame=False)
 
 
 def run_l_reading(ctx, part):
